@@ -5,6 +5,7 @@ import c_sched
 import c_api
 import c_txn
 import c_iso
+import c_conc
 import thms
 
 TRUSTED = [
@@ -180,7 +181,7 @@ HOOK_COMMITS = ["fdc44d7"]
 NOT_CLAIMED = {}
 
 PROPS = {
-    "C08": {"modules": ["SodiumVerif.Props.C08"], "audit_import": "SodiumVerif.Props.C08", "theorems": c_gc.C08_THEOREMS,
+    "C08": {"modules": ["SodiumVerif.Props.C08", "SodiumVerif.Props.C07", "SodiumVerif.Props.C06"], "audit_import": ["SodiumVerif.Props.C08", "SodiumVerif.Props.C07", "SodiumVerif.Props.C06"], "theorems": c_gc.C08_THEOREMS,
             "run": run_c08, "replay": gc_replay,
             "technique": "Lean 4 theorems on the collector model M_gc + exact-state differential correspondence with gc_node.rs (random and exhaustive histories)",
             "level_text": "Theorems about M_gc (a line-by-line executable model of gc_node.rs) for every object graph and history; the model is tied to the code by comparing the full hidden collector state after every operation of random (quick) and exhaustively enumerated (thorough) histories, and the implementation is separately checked against a reachability ground truth to find concrete failing histories.",
@@ -208,6 +209,17 @@ PROPS["C19"] = {
     "level_text": "no_process_state is a theorem about Gen/Facts.lean, which is regenerated from /repo/src on every run (no static, thread_local!, lazy_static!, once-cell items); ctx_frame: for every interleaving of operations on two contexts each context's state and outputs are what its own operations produce alone. Tie: pairs of random programs are run alone, interleaved on one thread (also inside the other's open transaction) and on two OS threads; per-context outputs and node counts must be identical.",
     "level_note": "The scanner is lexical (trusted only for what it is). Thread schedules are sampled, not enumerated: a data race inside shared infrastructure outside the library (the global `log` logger, the allocator) is outside the model. With the hooks feature on, the hook module has thread-local counters and one static (the schedule hook): excluded from the scan and unused in these runs.",
     "design_ref": "DESIGN.md section 6, C19",
+}
+
+PROPS["C20"] = {
+    "modules": ["SodiumVerif.Props.C20"], "audit_import": ["SodiumVerif.Props.C20"],
+    "theorems": ["SodiumVerif.Conc.serial_both_delivered", "SodiumVerif.Conc.lost_send_witness", "SodiumVerif.Conc.merged_txn_witness",
+                 "SodiumVerif.Conc.same_sink_overwrite_witness", "SodiumVerif.Conc.unsafe_inventory"],
+    "run": c_conc.check, "replay": c_conc.replay,
+    "technique": "Lean 4 model of threads at schedule-point granularity (M_conc) with machine-checked counterexample executions; every enumerated schedule forced on real threads through the library's schedule hooks and compared with the model; outcomes classified against the property (partial: the property is false, known finding D7)",
+    "level_text": "PARTIAL. The property is false of the model and of the code: lost_send_witness, merged_txn_witness and same_sink_overwrite_witness are complete executions of M_conc (checked by kernel evaluation), and the harness replays each enumerated schedule on two real threads with baton passing at the library's schedule points; the model must predict every outcome, and every outcome is classified (lost / duplicate / residue / panic / hung). The lost-send classes are known findings (D7: no transaction lock); any other class, or a model/implementation disagreement, is reported.",
+    "level_note": "Schedules are at schedule-point granularity: finer interleavings, torn or reordered accesses (GcNodeData.color is a plain Cell under unsafe impl Sync, Relaxed counters), and lock fairness are outside the model; absence of a bad schedule here would prove nothing about the runtime. decide +kernel is used for the witness theorems (kernel evaluation, no extra axioms).",
+    "design_ref": "DESIGN.md section 6, C20",
 }
 
 for _pid in ["C01", "C02", "C04", "C05", "C10", "C11", "C12", "C13", "C14", "C15", "C17", "C18", "C06", "C07", "C09"]:
